@@ -335,7 +335,7 @@ func init() {
 	core.Register(&core.Check{
 		ID:    "C04",
 		Level: "exploration",
-		Rule:  "exhaustive matrix: every target type x every value descriptor (variable, constant literal in two spellings, empty and nested empty literals, literal containing a variable, function result, and expressions made of constants: group, concatenation, slice, repetition, index) x 7 contexts (assignment, parameter, variadic parameter, return, array element, map field, inferred declaration) over all types of nesting depth <= 1 (quick) / <= 2 (thorough), plus the operator table (13 operators x all ordered type pairs, variables and constants) and unary, index, slice, field, assertion, condition and range contexts, and the relation `x := []` = `x:[]any` (7 spellings x 20 uses); one tiny program per cell; acceptance and printed typeof compared with the transcribed rules. distinct = distinct cells",
+		Rule:  "exhaustive matrix: every target type x every value descriptor (variable, constant literal in two spellings, empty and nested empty literals, literal containing a variable, function result, and expressions made of constants: group, concatenation, slice, repetition, index) x 7 contexts (assignment, parameter, variadic parameter, return, array element, map field, inferred declaration) over all types of nesting depth <= 1 (quick) / <= 2 (thorough), plus the operator table (13 operators x all ordered type pairs, variables and constants) and unary, index, slice (every bound position x bound type), field, assertion, condition and range contexts, and the relation `x := []` = `x:[]any` (7 spellings x 20 uses); one tiny program per cell; acceptance and printed typeof compared with the transcribed rules. distinct = distinct cells",
 		Assumptions: []string{
 			"cells the specification leaves open are listed and not judged: a literal that contains variables assigned to an any-based composite type (the text says it is treated like a variable; the implementation converts element-wise) - only for literals of num/string/bool variables; a literal holding an array or map variable is judged",
 		},
